@@ -21,13 +21,14 @@ func split(ctx context.Context, r io.Reader) (<-chan string, <-chan error) {
 		}()
 
 		block := ""
+		sharp := false // "# heading" が現れたら、以降のrootは見出し行のみ(リスト行はその子)
 		for sc.Scan() {
 			select {
 			case <-ctx.Done():
 				return
 			default:
 				l := sc.Text()
-				if isRootBlockBeginning(l) {
+				if isRootBlockBeginning(l, sharp) {
 					if len(block) != 0 {
 						select {
 						case <-ctx.Done():
@@ -37,6 +38,7 @@ func split(ctx context.Context, r io.Reader) (<-chan string, <-chan error) {
 					}
 					block = ""
 				}
+				sharp = sharp || (len(l) != 0 && l[0] == '#')
 				block += fmt.Sprintln(l)
 			}
 		}
@@ -55,9 +57,12 @@ func split(ctx context.Context, r io.Reader) (<-chan string, <-chan error) {
 	return blockc, errc
 }
 
-func isRootBlockBeginning(l string) bool {
+func isRootBlockBeginning(l string, sharp bool) bool {
 	if len(l) == 0 {
 		return false
+	}
+	if sharp {
+		return l[0] == '#'
 	}
 	return md.IsSymbol(l[0:1])
 }
